@@ -183,6 +183,8 @@ class Objects:
             return Opaque("aware_dt", instant=inst, tzinfo=Opaque("tzinfo"))
         if obj.kind == "file" and bm.name == "read":
             return Opaque("filetext", path=obj.get("path"))
+        if obj.kind == "file" and bm.name == "write":
+            return None                      # comment / header text: strings are opaque
         if obj.kind == "str" and bm.name in ("lower", "upper", "strip"):
             return obj
         if obj.kind == "str" and bm.name in ("startswith", "endswith"):
@@ -198,6 +200,8 @@ class Objects:
     def index_opaque(self, ex, st, base, node):
         if base.kind == "strrow":
             return Opaque("str")
+        if base.kind == "yamldoc":
+            return Opaque("yamldoc")
         if base.kind == "argwhere":
             idx = base.get("idx")
             sl = node.slice
@@ -320,6 +324,8 @@ def antiderivative_of(ctx, clo):
 
 
 LIBFUNCS = {
+    "yaml.safe_load": "yaml_safe_load",
+    "yaml.dump": "yaml_dump",
     "pytz.timezone": "pytz_timezone",
     "csv.reader": "csv_reader",
     "datetime.datetime.strptime": "dt_strptime",
@@ -337,6 +343,20 @@ LIBFUNCS = {
 def _install():
     from . import libspec
     L = libspec.Lib
+
+    def b_yaml_safe_load(self, ex, st, args, kwargs, node):
+        """yaml.safe_load(file): an opaque document; subscripting it gives opaque sub-documents."""
+        return Opaque("yamldoc")
+
+    def b_yaml_dump(self, ex, st, args, kwargs, node):
+        """yaml.dump(value, file): the value is recorded, in order, as what the function wrote (ghost `dumped`)."""
+        if len(args) != 2 or not (isinstance(args[1], Opaque) and args[1].kind == "file"):
+            raise EngineError("%s:L%d: yaml.dump other than yaml.dump(value, file) outside the subset" % (ex.fnname, node.lineno))
+        st.ghost["__dumped__"] = list(st.ghost.get("__dumped__", [])) + [args[0]]
+        return None
+
+    L.b_yaml_safe_load = b_yaml_safe_load
+    L.b_yaml_dump = b_yaml_dump
 
     def b_pytz_timezone(self, ex, st, args, kwargs, node):
         return Opaque("tz", id=z3.Int(uid("zone")))
